@@ -2,6 +2,7 @@ package main
 
 import (
 	"fmt"
+	"go/types"
 	"strings"
 
 	"golang.org/x/tools/go/ssa"
@@ -10,172 +11,373 @@ import (
 func init() {
 	register(&propDef{
 		id: "C51", run: runC51, minOblig: 14,
-		explanation: "Decides guard-shape clauses of C51 in acme/autocert: (policy) in GetCertificate every path to Manager.cert / Manager.createCert passes the nil-error edge of the host-policy call, and the name given to the policy is the value the certificate key is built from; (cache validity) cacheGet returns a certificate only over the success edge of validCert applied to its own certKey parameter and Manager.now(); validCert's nil-error return lies behind each gate — not-before, not-after (receiver is the 'now' parameter), VerifyHostname(ck.domain), the Let's Encrypt revocation test, every public/private key Cmp == 0 edge — and, by finite-domain evaluation over (key arm, ck.isRSA, ck.isToken), is reachable exactly when the key type matches the certKey; (no panic in renewal timers) every argument of lockedMathRand.int63n / rand.Int63n in acme/autocert is a positive constant or dominated by a > 0 test. NOT decided: single issuance under all schedules, jitter window values, renewal timing.",
-		assumptions: []string{"math/rand.Int63n panics iff n <= 0 (stdlib contract)", "x509.Certificate.VerifyHostname / time.Time.Before/After contracts"},
+		explanation: "Decides clauses of C51 in acme/autocert by scenario evaluation: a root function and the same-package helpers it calls are evaluated context-sensitively over a finite domain in which the outcome of some semantic tests is fixed and everything else is unknown; tests are recognised by the provenance of their operands (root parameter by type, field chain, element 0 of x509.ParseCertificates' result, followed through helper parameters, spilled values, conversions and single-valued helper results), not by names of locals/parameters/receivers or by the function they are written in. (policy) in GetCertificate, when the call through Manager.HostPolicy (or the accessor's default) returns an error no call of Manager.cert / Manager.createCert is reachable, and the name given to the policy is the value the certificate key's domain is built from (through strings.TrimSuffix only); (cache validity) in cacheGet, when validCert returns an error every reachable return has a nil certificate, and validCert is applied to cacheGet's own certKey parameter and Manager.now(); (validCert) no nil-error return is reachable when now is before leaf.NotBefore, when now is after leaf.NotAfter, when leaf.VerifyHostname(ck.domain) fails, when the leaf is a Let's Encrypt certificate from before the fix date, when ParseCertificates fails, or when leaf.PublicKey's N / X / Y compares unequal to the private key's (Before/After/Equal/Compare/Sub in either operand order, Cmp in either order and any comparison of its result with a constant are understood); over (leaf key class, private key class, ck.isRSA, ck.isToken) a nil-error return is reachable exactly when both classes agree (RSA or ECDSA) and the class matches ck.isRSA or ck.isToken is set; (single issuance, one interleaving-independent clause) on every path of certState with helpers expanded, Manager.state is consulted/extended only while stateMu is held, an insertion follows a lookup made in the same critical section, the inserted state was write-locked before, and owner=true is returned only on inserting paths; (no panic in renewal timers) every argument of a math/rand bounded draw (Int63n family, also math/rand/v2) in acme/autocert is a positive constant, max(positive constant, ...), or dominated by a > 0 test, followed from a forwarding helper's parameter to the arguments at all its call sites. NOT decided: single issuance under all schedules beyond the certState critical section, jitter window values, renewal timing.",
+		assumptions: []string{"math/rand.Int63n panics iff n <= 0 (stdlib contract)", "x509.Certificate.VerifyHostname / time.Time.Before/After/Compare/Sub and big.Int.Cmp contracts"},
 	})
-	tech("C51", "must-cross CFG rules on checked calls, finite-domain evaluation of the key-type gate, positivity guard of Int63n arguments")
+	tech("C51", "context-sensitive compositional finite-domain evaluation of scenarios (roles by provenance), path walk with lock state over helpers expanded in place, interprocedural positivity guard of Int63n arguments")
 }
+
+const c51Pkg = "acme/autocert"
 
 func runC51(c *Ctx) {
 	c51SingleIssuance(c)
-	const pk = "acme/autocert"
-	// ---- (a) host policy precedes certificate lookup/issuance
-	if f := c.fn(pk, "(*Manager).GetCertificate"); f != nil {
-		var pol []ssa.CallInstruction
-		allInstrs(f, func(in ssa.Instruction) {
-			if call, ok := in.(*ssa.Call); ok {
-				if inner, ok := call.Call.Value.(*ssa.Call); ok && short(calleeName(&inner.Call)) == "(*acme/autocert.Manager).hostPolicy" {
-					pol = append(pol, call)
-				}
-			}
-		})
-		targets := callInstrs(callsNamed(f, "(*acme/autocert.Manager).cert", "(*acme/autocert.Manager).createCert"))
-		if c.mustCross("C51.policy-first", "(*Manager).GetCertificate", f, targets, callSuccess(pol, -1, isNil), "the host policy's nil-error edge") && len(pol) == 1 {
-			// same name: policy arg == TrimSuffix arg that feeds certKey.domain
-			polName := pol[0].Common().Args[1]
-			same := false
-			for _, ci := range callsNamed(f, "strings.TrimSuffix") {
-				if ci.Common().Args[0] == polName {
-					same = true
-				}
-			}
-			c.check(same, "C51.policy-name", "(*Manager).GetCertificate", pol[0], "the policy is asked about the name the certificate key is built from", "the name checked by the host policy is not the value used to build the certificate key")
-		}
-		c.check(len(targets) == 2, "C51.policy-first", "(*Manager).GetCertificate targets", f, "cert and createCert call sites found", fmt.Sprintf("expected 2 cert/createCert call sites, found %d", len(targets)))
-	}
-	// ---- (b) cacheGet returns only validated certificates
-	if f := c.fn(pk, "(*Manager).cacheGet"); f != nil {
-		vc := callsNamed(f, "acme/autocert.validCert")
-		if c.mustCross("C51.cache-valid", "(*Manager).cacheGet", f, valueReturns(f, 0), callSuccess(vc, -1, isNil), "validCert's nil-error edge") && len(vc) == 1 {
-			args := vc[0].Common().Args
-			c.check(args[0] == ssa.Value(param(f, "ck")), "C51.cache-valid-args", "(*Manager).cacheGet validCert(ck)", vc[0], "validated against the requested certKey", "validCert is not applied to cacheGet's own certKey parameter")
-			nowOK := false
-			if call, ok := args[3].(*ssa.Call); ok {
-				if u, ok := call.Call.Value.(*ssa.UnOp); ok && strings.HasSuffix(accessPath(u), ".nowFunc") {
-					nowOK = true
-				}
-				if short(calleeName(&call.Call)) == "(*acme/autocert.Manager).now" {
-					nowOK = true
-				}
-			}
-			c.check(nowOK, "C51.cache-valid-args", "(*Manager).cacheGet validCert(now)", vc[0], "validated at Manager.now()", "validCert's time argument is not Manager.now()")
+	c51PolicyFirst(c)
+	c51CacheValid(c)
+	c51ValidCert(c)
+	c51Int63n(c)
+}
+
+func c51ArgOfType(call *ssa.Call, pkg, name string) ssa.Value {
+	for _, a := range call.Call.Args {
+		if p, n := c51Named(a.Type()); n == name && p == pkg {
+			return a
 		}
 	}
-	// ---- (b2) validCert gates
-	if f := c.fn(pk, "validCert"); f != nil {
-		acc := acceptReturns(f, 1)
-		// time window
-		for _, g := range []struct{ meth, field string }{{"Before", "NotBefore"}, {"After", "NotAfter"}} {
-			var pass []edge
-			for _, ci := range callsNamed(f, "(time.Time)."+g.meth) {
-				call := ci.(*ssa.Call)
-				if accessPath(call.Call.Args[0]) != "now" && call.Call.Args[0] != ssa.Value(param(f, "now")) {
-					continue
+	return nil
+}
+
+// ---- (a) host policy precedes certificate lookup/issuance
+func c51PolicyFirst(c *Ctx) {
+	f := c.fn(c51Pkg, "(*Manager).GetCertificate")
+	if f == nil {
+		return
+	}
+	pkgPath := f.Pkg.Pkg.Path()
+	k := c51NewKit(c, f)
+	isTarget := func(v c51Val) string {
+		call := v.v.(*ssa.Call)
+		if sc := call.Call.StaticCallee(); sc != nil && sc.Pkg == f.Pkg {
+			switch fnName(sc) {
+			case "(*Manager).cert", "(*Manager).createCert":
+				return fnName(sc)
+			}
+		}
+		return ""
+	}
+	null := k.scen(&c51World{}, "(*Manager).cert", "(*Manager).createCert")
+	null.run(k.root)
+	var targets []c51Val
+	have := map[string]bool{}
+	for _, rc := range null.reachedCalls {
+		if t := isTarget(rc); t != "" {
+			targets = append(targets, rc)
+			have[t] = true
+		}
+	}
+	if !c.check(len(have) == 2, "C51.policy-first", "(*Manager).GetCertificate targets", f, "cert and createCert call sites found", fmt.Sprintf("calls of Manager.cert and Manager.createCert expected in GetCertificate or its helpers, found %d of the two", len(have))) {
+		return
+	}
+	pols := k.sites["policy"]
+	bad := k.scen(&c51World{policyBad: true}, "(*Manager).cert", "(*Manager).createCert")
+	bad.run(k.root)
+	var hit *c51Val
+	for i, rc := range bad.reachedCalls {
+		if isTarget(rc) != "" {
+			hit = &bad.reachedCalls[i]
+			break
+		}
+	}
+	switch {
+	case len(pols) == 0:
+		c.fail("C51.policy-first", "(*Manager).GetCertificate", f, "gate not found: no call through Manager.HostPolicy in GetCertificate or its helpers")
+	case hit != nil:
+		c.fail("C51.policy-first", "(*Manager).GetCertificate", hit.v.(*ssa.Call), "reachable although the host policy returned an error (helpers evaluated in context)")
+	default:
+		c.ok("C51.policy-first", "(*Manager).GetCertificate", targets[0].v.(*ssa.Call), fmt.Sprintf("when the host policy returns an error none of the %d cert/createCert call(s) is reachable (%d policy call(s), helpers evaluated in context)", len(targets), len(pols)))
+	}
+	if len(pols) == 0 {
+		return
+	}
+	// same name: the policy's name argument is what the key's domain is built from
+	var derives func(v c51Val, pol ssa.Value, d int) bool
+	derives = func(v c51Val, pol ssa.Value, d int) bool {
+		r := c51Resolve(v.v, v.cx)
+		if r.v == pol {
+			return true
+		}
+		if call, ok := r.v.(*ssa.Call); ok && d < 4 && short(calleeName(&call.Call)) == "strings.TrimSuffix" {
+			return derives(c51Val{call.Call.Args[0], r.cx}, pol, d+1)
+		}
+		return false
+	}
+	domainSources := func(v c51Val) []c51Val {
+		r := c51Resolve(v.v, v.cx)
+		var out []c51Val
+		u, ok := r.v.(*ssa.UnOp)
+		if !ok {
+			return nil
+		}
+		al, ok := u.X.(*ssa.Alloc)
+		if !ok || al.Referrers() == nil {
+			return nil
+		}
+		for _, ref := range *al.Referrers() {
+			fa, ok := ref.(*ssa.FieldAddr)
+			if !ok || fa.Referrers() == nil {
+				continue
+			}
+			if st := derefStruct(fa.X.Type()); st == nil || st.Field(fa.Field).Name() != "domain" {
+				continue
+			}
+			for _, rr := range *fa.Referrers() {
+				if s, ok := rr.(*ssa.Store); ok && s.Addr == ssa.Value(fa) {
+					out = append(out, c51Val{s.Val, r.cx})
 				}
-				if tn, fld, _, ok := fieldOf(call.Call.Args[1]); !ok || tn != "Certificate" || fld != g.field {
-					continue
-				}
-				_, no := successEdges(call, 0, isTrue)
-				pass = append(pass, no...)
-			}
-			c.mustCross("C51.validcert-gate", "validCert now."+g.meth+"(leaf."+g.field+")", f, acc, pass, "the false edge of now."+g.meth+"(leaf."+g.field+")")
-		}
-		// hostname
-		var hn []ssa.CallInstruction
-		for _, ci := range callsNamed(f, "(*crypto/x509.Certificate).VerifyHostname") {
-			if strings.HasSuffix(accessPath(ci.Common().Args[1]), "ck.domain") {
-				hn = append(hn, ci)
 			}
 		}
-		c.mustCross("C51.validcert-gate", "validCert VerifyHostname(ck.domain)", f, acc, callSuccess(hn, -1, isNil), "VerifyHostname(ck.domain) == nil")
-		c.mustCross("C51.validcert-gate", "validCert isRevokedLetsEncrypt", f, acc, callFailure(callsNamed(f, "acme/autocert.isRevokedLetsEncrypt"), 0, isTrue), "the false edge of isRevokedLetsEncrypt")
-		// chain parse
-		c.mustCross("C51.validcert-gate", "validCert ParseCertificates", f, acc, callSuccess(callsNamed(f, "crypto/x509.ParseCertificates"), -1, isNil), "ParseCertificates' nil-error edge")
-		// key comparisons
-		cmps := callsNamed(f, "(*math/big.Int).Cmp")
-		c.check(len(cmps) >= 3, "C51.validcert-keymatch", "validCert Cmp count", f, fmt.Sprintf("%d public/private comparisons", len(cmps)), fmt.Sprintf("only %d key comparisons found, expected 3 (RSA N, ECDSA X, Y)", len(cmps)))
-		for i, ci := range cmps {
-			call := ci.(*ssa.Call)
-			zero := edgesImplying(call, []int64{-1, 0, 1}, func(d int64) bool { return d == 0 })
-			c.mustCrossFrom("C51.validcert-keymatch", fmt.Sprintf("validCert Cmp#%d", i), call, acc, zero, "the == 0 edge of this public/private comparison")
-		}
-		// key type gate by finite-domain evaluation
-		type arm struct {
-			name string
-			ok   *ssa.Extract
-		}
-		var arms []arm
-		allInstrs(f, func(in ssa.Instruction) {
-			ta, ok := in.(*ssa.TypeAssert)
-			if !ok || !ta.CommaOk {
-				return
+		return out
+	}
+	same, why := true, ""
+	for _, p := range pols {
+		call := p.in.(*ssa.Call)
+		var polName ssa.Value
+		for _, a := range call.Call.Args {
+			if b, ok := a.Type().Underlying().(*types.Basic); ok && b.Kind() == types.String {
+				polName = c51Resolve(a, p.cx).v
 			}
-			if tn, fld, _, ok := fieldOf(ta.X); !ok || tn != "Certificate" || fld != "PublicKey" {
-				return
+		}
+		for _, t := range targets {
+			ck := c51ArgOfType(t.v.(*ssa.Call), pkgPath, "certKey")
+			if ck == nil || polName == nil {
+				same, why = false, "policy name / certKey argument not found"
+				continue
 			}
-			for _, r := range *ta.Referrers() {
-				if ex, ok := r.(*ssa.Extract); ok && ex.Index == 1 {
-					arms = append(arms, arm{ta.AssertedType.String(), ex})
+			srcs := domainSources(c51Val{ck, t.cx})
+			if len(srcs) == 0 {
+				same, why = false, "the construction of the certificate key's domain was not found"
+			}
+			for _, s := range srcs {
+				if !derives(s, polName, 0) {
+					same, why = false, "the name checked by the host policy is not the value used to build the certificate key"
 				}
 			}
-		})
-		if len(arms) != 2 {
-			c.fail("C51.validcert-keytype", "validCert type switch", f, fmt.Sprintf("expected a type switch over 2 public key types, found %d", len(arms)))
+		}
+	}
+	c.check(same, "C51.policy-name", "(*Manager).GetCertificate", pols[0].in, "the policy is asked about the name the certificate key is built from", why)
+}
+
+// ---- (b) cacheGet returns only validated certificates
+func c51CacheValid(c *Ctx) {
+	f := c.fn(c51Pkg, "(*Manager).cacheGet")
+	if f == nil {
+		return
+	}
+	pkgPath := f.Pkg.Pkg.Path()
+	k := c51NewKit(c, f)
+	null := k.scen(&c51World{}, "validCert")
+	null.run(k.root)
+	var vcs []c51Val
+	for _, rc := range null.reachedCalls {
+		if k.role(rc.v.(*ssa.Call), rc.cx).kind == "validcert-call" {
+			vcs = append(vcs, rc)
+		}
+	}
+	if len(vcs) == 0 {
+		c.fail("C51.cache-valid", "(*Manager).cacheGet", f, "gate not found: no call of validCert in cacheGet or its helpers")
+		return
+	}
+	bad := k.scen(&c51World{validBad: true}, "validCert")
+	var leak *ssa.Return
+	for _, r := range bad.run(k.root) {
+		if len(r.vals) > 0 && !(r.vals[0].nilOK && r.vals[0].isNil) {
+			leak = r.ret
+		}
+	}
+	if leak != nil {
+		c.fail("C51.cache-valid", "(*Manager).cacheGet", leak, "a certificate is returned although validCert returned an error (helpers evaluated in context)")
+	} else {
+		c.ok("C51.cache-valid", "(*Manager).cacheGet", vcs[0].v.(*ssa.Call), fmt.Sprintf("when validCert returns an error every reachable return of cacheGet has a nil certificate (%d validCert call(s))", len(vcs)))
+	}
+	ckOK, nowOK := true, true
+	for _, vc := range vcs {
+		call := vc.v.(*ssa.Call)
+		a := c51ArgOfType(call, pkgPath, "certKey")
+		if a == nil {
+			ckOK = false
+		} else if root, fields := c51Chain(a, vc.cx); len(fields) != 0 || !c51RootParam(root, pkgPath, "certKey") {
+			ckOK = false
+		}
+		t := c51ArgOfType(call, "time", "Time")
+		ok := false
+		if t != nil {
+			if tc, isC := c51Resolve(t, vc.cx).v.(*ssa.Call); isC {
+				if sc := tc.Call.StaticCallee(); sc != nil && fnName(sc) == "(*Manager).now" {
+					ok = true
+				}
+				if _, fields := c51Chain(tc.Call.Value, vc.cx); len(fields) > 0 && fields[len(fields)-1] == "nowFunc" {
+					ok = true
+				}
+			}
+		}
+		nowOK = nowOK && ok
+	}
+	c.check(ckOK, "C51.cache-valid-args", "(*Manager).cacheGet validCert(ck)", vcs[0].v.(*ssa.Call), "validated against the requested certKey", "validCert is not applied to cacheGet's own certKey parameter")
+	c.check(nowOK, "C51.cache-valid-args", "(*Manager).cacheGet validCert(now)", vcs[0].v.(*ssa.Call), "validated at Manager.now()", "validCert's time argument is not Manager.now()")
+}
+
+// ---- (b2) validCert gates
+func c51ValidCert(c *Ctx) {
+	f := c.fn(c51Pkg, "validCert")
+	if f == nil {
+		return
+	}
+	k := c51NewKit(c, f)
+	errIdx := f.Signature.Results().Len() - 1
+	accept := func(w *c51World) *ssa.Return {
+		for _, r := range k.scen(w).run(k.root) {
+			if errIdx < len(r.vals) && !(r.vals[errIdx].nilOK && !r.vals[errIdx].isNil) {
+				return r.ret
+			}
+		}
+		return nil
+	}
+	// the unconstrained world must be able to accept (and makes every role known)
+	if accept(&c51World{}) == nil {
+		c.fail("C51.validcert-gate", "validCert", f, "no nil-error return of validCert found (rule anchor lost)")
+		return
+	}
+	type gate struct {
+		construct, cond string
+		w               *c51World
+		tags            []string
+	}
+	gates := []gate{
+		{"validCert now.Before(leaf.NotBefore)", "now is before leaf.NotBefore", &c51World{rel: map[[2]string]int64{{"now", "nb"}: -1}}, []string{"timecmp:nb,now"}},
+		{"validCert now.After(leaf.NotAfter)", "now is after leaf.NotAfter", &c51World{rel: map[[2]string]int64{{"now", "na"}: 1}}, []string{"timecmp:na,now"}},
+		{"validCert VerifyHostname(ck.domain)", "leaf.VerifyHostname(ck.domain) returns an error", &c51World{hostBad: true}, []string{"host"}},
+		{"validCert isRevokedLetsEncrypt", "the leaf was issued by Let's Encrypt before the fix date", &c51World{org: true, rel: map[[2]string]int64{{"nb", "fix"}: -1}}, []string{"orglen", "orgname", "timecmp:fix,nb"}},
+		{"validCert ParseCertificates", "x509.ParseCertificates returns an error", &c51World{parseBad: true}, []string{"parse"}},
+	}
+	for _, g := range gates {
+		n := 0
+		missing := ""
+		for _, t := range g.tags {
+			n += k.nSites(t)
+			if k.nSites(t) == 0 {
+				missing = " — gate not found: no test of this condition (" + t + ") on the leaf in validCert or its helpers"
+			}
+		}
+		if r := accept(g.w); r != nil {
+			c.fail("C51.validcert-gate", g.construct, r, "a nil-error return is reachable although "+g.cond+missing)
 		} else {
-			bad := ""
-			n := 0
-			for sel := -1; sel < 2; sel++ {
-				for isRSA := int64(0); isRSA < 2; isRSA++ {
-					for isTok := int64(0); isTok < 2; isTok++ {
-						e := newEnv()
-						for i, a := range arms {
-							if i == sel {
-								e.bind(a.ok, 1)
-							} else {
-								e.bind(a.ok, 0)
-							}
-						}
-						e.bindPath(f, "ck.isRSA", isRSA)
-						e.bindPath(f, "ck.isToken", isTok)
-						e.solve(f)
-						got := false
-						for _, t := range acc {
-							if e.reach[t.Block()] {
-								got = true
-							}
-						}
-						want := false
-						if sel >= 0 {
-							rsa := strings.Contains(arms[sel].name, "rsa.")
-							want = isTok == 1 || (rsa == (isRSA == 1))
-						}
-						n++
-						if got != want {
-							armName := "other"
-							if sel >= 0 {
-								armName = arms[sel].name
-							}
-							bad = fmt.Sprintf("leaf key %s, ck.isRSA=%d ck.isToken=%d: acceptance reachable=%v, specification %v", armName, isRSA, isTok, got, want)
+			c.ok("C51.validcert-gate", g.construct, f, fmt.Sprintf("no nil-error return is reachable when %s (%d test site(s), helpers evaluated in context)", g.cond, n))
+		}
+	}
+	// key comparisons: an unequal component excludes acceptance whatever the flags
+	classOf := map[string]string{"N": "rsa", "X": "ecdsa", "Y": "ecdsa"}
+	for _, comp := range []string{"N", "X", "Y"} {
+		var leak *ssa.Return
+		desc := ""
+		for _, d := range []int64{-1, 1} {
+			for isRSA := int64(0); isRSA < 2; isRSA++ {
+				for isTok := int64(0); isTok < 2; isTok++ {
+					w := &c51World{keys: true, pub: classOf[comp], prv: classOf[comp], cmp: map[string]int64{"N": 0, "X": 0, "Y": 0}, isRSA: isRSA, isToken: isTok}
+					w.cmp[comp] = d
+					if r := accept(w); r != nil && leak == nil {
+						leak, desc = r, fmt.Sprintf("Cmp = %d, ck.isRSA=%d ck.isToken=%d", d, isRSA, isTok)
+					}
+				}
+			}
+		}
+		construct := "validCert " + classOf[comp] + " key " + comp
+		if leak != nil {
+			missing := ""
+			if k.nSites("cmp:"+comp) == 0 {
+				missing = fmt.Sprintf(" — no comparison of leaf.PublicKey's %s with the private key's %s found", comp, comp)
+			}
+			c.fail("C51.validcert-keymatch", construct, leak, fmt.Sprintf("a nil-error return is reachable although the leaf's public %s differs from the private key's (%s)%s", comp, desc, missing))
+		} else {
+			c.ok("C51.validcert-keymatch", construct, f, fmt.Sprintf("no nil-error return is reachable when the leaf's public %s differs from the private key's (%d comparison site(s))", comp, k.nSites("cmp:"+comp)))
+		}
+	}
+	// key class / expected type table
+	bad, n := "", 0
+	var badAt poser = f
+	classes := []string{"rsa", "ecdsa", "other"}
+	for _, pub := range classes {
+		for _, prv := range classes {
+			for isRSA := int64(0); isRSA < 2; isRSA++ {
+				for isTok := int64(0); isTok < 2; isTok++ {
+					w := &c51World{keys: true, pub: pub, prv: prv, cmp: map[string]int64{"N": 0, "X": 0, "Y": 0}, isRSA: isRSA, isToken: isTok}
+					r := accept(w)
+					want := pub == prv && pub != "other" && (isTok == 1 || (pub == "rsa") == (isRSA == 1))
+					n++
+					if (r != nil) != want && bad == "" {
+						bad = fmt.Sprintf("leaf key %s, private key %s, ck.isRSA=%d ck.isToken=%d: acceptance reachable=%v, specification %v", pub, prv, isRSA, isTok, r != nil, want)
+						if r != nil {
+							badAt = r
 						}
 					}
 				}
 			}
-			c.check(bad == "", "C51.validcert-keytype", "validCert type switch", f, fmt.Sprintf("key-type gate matches the specification on all %d cases", n), bad)
 		}
 	}
-	// ---- (c) Int63n arguments positive
-	n := 0
-	for _, f := range c.funcsOfPkg(pk) {
-		for _, ci := range calls(f, nameIs("(*acme/autocert.lockedMathRand).int63n", "(*math/rand.Rand).Int63n", "math/rand.Int63n")) {
-			if fnName(f) == "(*lockedMathRand).int63n" {
-				continue // the wrapper itself forwards its parameter
+	if bad == "" && (k.nSites("pubtype:rsa") == 0 || k.nSites("pubtype:ecdsa") == 0) {
+		bad = "no type test of leaf.PublicKey against *rsa.PublicKey / *ecdsa.PublicKey found"
+	}
+	c.check(bad == "", "C51.validcert-keytype", "validCert key type table", badAt, fmt.Sprintf("key-type gate matches the specification on all %d cases (leaf key class x private key class x ck.isRSA x ck.isToken)", n), bad)
+}
+
+// ---- (c) bounded random draws never get a non-positive bound
+func c51RandN(name string) bool {
+	name = short(name)
+	for _, p := range []string{"math/rand.", "(*math/rand.Rand).", "math/rand/v2.", "(*math/rand/v2.Rand)."} {
+		if strings.HasPrefix(name, p) {
+			switch m := name[len(p):]; {
+			case m == "Int63n" || m == "Int31n" || m == "Intn" || m == "Int64N" || m == "Int32N" || m == "IntN" || m == "Uint64N" || m == "Uint32N" || m == "UintN" || m == "N" || strings.HasPrefix(m, "N["):
+				return true
 			}
-			args := ci.Common().Args
-			arg := args[len(args)-1]
-			ok, why := positiveGuarded(arg, ci)
-			n++
-			c.check(ok, "C51.int63n-positive", fnName(f)+" int63n arg", ci, why, "Int63n argument may be <= 0 (panics): "+why)
 		}
 	}
-	c.check(n >= 2, "C51.int63n-positive", "call sites", nil, fmt.Sprintf("%d call sites", n), fmt.Sprintf("expected >= 2 int63n call sites, found %d", n))
+	return false
+}
+
+func c51Int63n(c *Ctx) {
+	sinks, leaves := 0, 0
+	var visit func(arg ssa.Value, at ssa.CallInstruction, depth int)
+	visit = func(arg ssa.Value, at ssa.CallInstruction, depth int) {
+		f := at.Parent()
+		ok, why := positiveGuarded(arg, at)
+		if !ok {
+			if mc, isC := stripConv(arg).(*ssa.Call); isC && calleeName(&mc.Call) == "builtin:max" {
+				for _, a := range mc.Call.Args {
+					if n, isK := newEnv().eval(a); isK && n > 0 {
+						ok, why = true, fmt.Sprintf("max(%d, ...)", n)
+					}
+				}
+			}
+		}
+		if !ok && depth < 3 {
+			// a helper that forwards its own parameter: the obligation moves to
+			// every call site of the helper
+			if p, isP := stripConv(arg).(*ssa.Parameter); isP && p.Parent() == f {
+				idx := paramIndex(f, p)
+				cs := c.callersOf(f)
+				if idx >= 0 && len(cs) > 0 && (f.Object() == nil || !f.Object().Exported()) {
+					for _, ci := range cs {
+						args := ci.Common().Args
+						if ci.Common().IsInvoke() || idx >= len(args) {
+							c.fail("C51.int63n-positive", fnName(f)+" int63n arg", ci, "Int63n argument may be <= 0 (panics): forwarded through a call that cannot be followed")
+							continue
+						}
+						visit(args[idx], ci, depth+1)
+					}
+					return
+				}
+			}
+		}
+		leaves++
+		c.check(ok, "C51.int63n-positive", fnName(f)+" int63n arg", at, why, "Int63n argument may be <= 0 (panics): "+why)
+	}
+	for _, f := range c.funcsOfPkg(c51Pkg) {
+		for _, ci := range calls(f, c51RandN) {
+			args := ci.Common().Args
+			if len(args) == 0 {
+				continue
+			}
+			sinks++
+			visit(args[len(args)-1], ci, 0)
+		}
+	}
+	c.check(sinks >= 1 && leaves >= 1, "C51.int63n-positive", "call sites", nil, fmt.Sprintf("%d bounded draw(s) of math/rand, bound established at %d site(s)", sinks, leaves), fmt.Sprintf("expected a bounded math/rand draw in acme/autocert, found %d (bounds checked at %d sites)", sinks, leaves))
 }
